@@ -20,6 +20,8 @@ import itertools
 from vpbt import jaxgrammar as G
 from vpbt.ctx import Violation
 
+G.disable_persistent_compilation_cache()
+
 _P = {}
 
 
@@ -63,6 +65,7 @@ def check_case(case, ctx=None, only_tagging=None):
             ref_cache[mask] = (pr, jtu.tree_leaves(out), jtu.tree_structure(out))
         return ref_cache[mask]
 
+    platform = [0]
     stats = {"taggings": 0, "nochange_leaves": 0, "unknown_leaves": 0, "nochange_leaves_mixed": 0, "unknown_leaves_changed": 0}
     taggings = list(itertools.product("NU", repeat=n))
     if only_tagging is not None:
@@ -72,7 +75,7 @@ def check_case(case, ctx=None, only_tagging=None):
         label = "".join(tg)
         sub = {"prog": prog, "tagging": label}
         mixed = 0 < label.count("U") < n
-        runs = []
+        runs, refs, inconsistent = [], [], False
         for point in (0, 1):
             mask = tuple((t == "U") and point == 1 for t in tg)
             primals, ref_leaves, ref_tree = reference(mask)
@@ -92,17 +95,29 @@ def check_case(case, ctx=None, only_tagging=None):
                     raise Violation("bad-tangent", f"tagging {label}: output leaf {j} has tangent {tan!r}", sub)
                 if isinstance(d.get_primal(), Diff):
                     raise Violation("nested-diff", f"tagging {label}: output leaf {j} is a nested Diff", sub)
-                if not G.same_bits(d.get_primal(), r):
+            bad = [j for j, (d, r) in enumerate(zip(leaves, ref_leaves)) if not G.same_bits(d.get_primal(), r)]
+            if bad:
+                # second opinion: JAX's own jaxpr evaluator on the pure-JAX reference (see jaxgrammar)
+                alt_leaves = G.eval_jaxpr_reference(f_ref, primals)
+                if len(alt_leaves) == len(leaves) and all(G.same_bits(d.get_primal(), r) for d, r in zip(leaves, alt_leaves)):
+                    platform[0] += 1
+                    inconsistent = True
+                else:
+                    j = bad[0]
                     raise Violation(
                         "primal",
-                        f"tagging {label} point {point}: output leaf {j} primal {G.show(d.get_primal())} != ordinary evaluation {G.show(r)}",
+                        f"tagging {label} point {point}: output leaf {j} primal {G.show(leaves[j].get_primal())} != ordinary evaluation {G.show(ref_leaves[j])}",
                         sub,
                     )
+            refs.append(ref_leaves)
             runs.append(leaves)
         # (2) soundness of NoChange
         for j, (d0, d1) in enumerate(zip(*runs)):
             t0, t1 = isinstance(d0.get_tangent(), _NoChange), isinstance(d1.get_tangent(), _NoChange)
             changed = not G.same_bits(d0.get_primal(), d1.get_primal())
+            if changed and inconsistent:
+                # an eager JAX executable misbehaved at one of the points: judge by plain evaluation
+                changed = not G.same_bits(refs[0][j], refs[1][j])
             if (t0 or t1) and changed:
                 raise Violation(
                     "unsound-nochange",
@@ -117,6 +132,7 @@ def check_case(case, ctx=None, only_tagging=None):
                 stats["unknown_leaves"] += 1
                 stats["unknown_leaves_changed"] += int(changed)
         stats["taggings"] += 1
+    stats["jax_eager_inconsistency"] = platform[0]
     if ctx is not None and not ctx.replaying:
         for k, v in stats.items():
             ctx.extra[k] = ctx.extra.get(k, 0) + v
@@ -130,7 +146,7 @@ def run(ctx):
 
     def chk(prog):
         state["n"] += 1
-        if state["n"] % 20 == 0:
+        if state["n"] % 25 == 0:
             jax.clear_caches()
         ctx.note_case(prog, nontrivial=is_nontrivial(prog), classes=G.classes_of(prog))
         check_case(prog, ctx)
